@@ -57,6 +57,19 @@ def collision_family():
             doc2 = {"definitions": {"T": dict(_obj({m: {"type": "integer"}}, [m]), additionalProperties={"type": "string"})}}
             out.append({"id": "member_flat[%s]%s" % (m, "#b" if builder else ""), "doc": doc2, "target": "T", "shape": "member-name-flat", "ctx": "def", "family": "collision",
                         "settings": {"struct_builder": builder}})
+    # bespoke default functions are named <type>_<member>: Foo.bar_baz and FooBar.baz meet
+    en = {"type": "string", "enum": ["a", "b"]}
+    for (t1, m1, t2, m2) in (("Foo", "bar_baz", "FooBar", "baz"), ("A", "b_c", "AB", "c"), ("Foo", "bar", "Foo", "Bar")):
+        if t1 == t2:
+            defs = {"E": en, t1: _obj({m1: {"default": "a", "allOf": [{"$ref": "#/definitions/E"}]}, m2: {"default": "b", "allOf": [{"$ref": "#/definitions/E"}]}})}
+        else:
+            defs = {"E": en, t1: _obj({m1: {"default": "a", "allOf": [{"$ref": "#/definitions/E"}]}}), t2: _obj({m2: {"default": "b", "allOf": [{"$ref": "#/definitions/E"}]}})}
+        out.append({"id": "default_fn_names[%s.%s,%s.%s]" % (t1, m1, t2, m2), "doc": {"definitions": defs}, "target": None, "shape": "default-fn-names", "ctx": "defs",
+                    "family": "collision"})
+    # whole-type default that omits a member which has its own default of a type without Default
+    inline = {"type": "object", "properties": {"k": {"default": "b", "allOf": [{"$ref": "#/definitions/E"}]}, "n": {"type": "integer"}}, "default": {"n": 1}}
+    out.append({"id": "type_default_omits_defaulted_member", "doc": {"definitions": {"E": en, "T": _obj({"inner": inline})}}, "target": None,
+                "shape": "type-default-omits-member", "ctx": "member", "family": "collision"})
     return out
 
 
